@@ -292,8 +292,9 @@ func genSingleCut(r *hx.Rand, id string, raw []byte, method string, c int) HttpI
 	return in
 }
 
-// pipelined: a burst of k small requests written without waiting; how it is segmented
-// decides what the proxy loses.  All writes of one burst stay below the 4096-byte reader.
+// pipelined: a burst of k small requests written without waiting, in one write, one write
+// per request, or cut anywhere (before the repair 24ce50b the segmentation decided what
+// the proxy lost).
 func genPipelined(r *hx.Rand, id string, mode int) HttpInput {
 	in := HttpInput{Class: "pipelined"}
 	k := r.Range(2, 3)
@@ -329,8 +330,8 @@ func genPipelined(r *hx.Rand, id string, mode int) HttpInput {
 }
 
 // oversend: the backend writes an unsolicited second reply in the same write as the
-// first; the proxy's reply reader is created anew for every reply, so the extra one is
-// read ahead and dropped.
+// first; it stays in the proxy's backend-side reader and is handed out as the reply to
+// the next request (if there is one).
 func genOversend(r *hx.Rand, id string) HttpInput {
 	in := genLockstep(r, id, r.Range(1, 3), true)
 	in.Class = "oversend"
